@@ -35,6 +35,13 @@ def tier(default="quick"):
     return t if t in ("quick", "thorough") else default
 
 
+def quiet_package_logging():
+    import logging
+
+    logging.getLogger("bldfm").setLevel(logging.ERROR)
+    logging.getLogger("numba").setLevel(logging.ERROR)
+
+
 class MachineryError(Exception):
     """The checking machinery itself failed (exit code 2, never a verdict)."""
 
